@@ -15,6 +15,8 @@ PATTERNS = [
     ("fs", re.compile(r"\bstd::fs\b|\bfs::read|\bFile::open\b")),
     ("rc", re.compile(r"\b(?:Rc|Weak)\s*<")),
     ("process", re.compile(r"\bstd::process\b|\bstd::net\b")),
+    # process-wide registrations and settings: the panic hook, the allocation-error hook, the working directory, the environment
+    ("process-hook", re.compile(r"\b(?:set_hook|take_hook|update_hook|set_alloc_error_hook|take_alloc_error_hook|set_current_dir|remove_var|set_output_capture)\b")),
 ]
 
 
